@@ -51,8 +51,9 @@ Theorem C11_virtual_arg_upcast : forall H f k C (s d : sub) D q,
 Proof. exact thunk_arg_upcast. Qed.
 Print Assumptions C11_virtual_arg_upcast.
 
-(** Shared kinds: the definition's smart pointer has the caller's control block;
-    plain kinds carry none. *)
+(** Shared kinds (shared_ptr, const shared_ptr&, virtual_shared_ptr,
+    const virtual_shared_ptr&): the definition's smart pointer has the caller's
+    control block; plain kinds carry none. *)
 Theorem C11_shared : forall H f k C (s d : sub) D ctrl,
   In s (subobjects H f C) ->
   filter (of_class D) (subobjects H f C) = [d] ->
@@ -62,7 +63,7 @@ Proof. exact thunk_ctrl_shared. Qed.
 Print Assumptions C11_shared.
 
 (** optimal_cast picks static_cast exactly when it is well formed
-    (T&, T&&, T*, virtual_ptr, virtual_shared_ptr). *)
+    (T&, T&&, T*, virtual_ptr, virtual_shared_ptr, const virtual_shared_ptr&). *)
 Theorem C11_optimal_cast : forall H f k B D,
   uses_optimal_cast k = true ->
   (cast_choice H f k B D = CStatic <-> static_cast_ok H f B D = true).
@@ -172,8 +173,8 @@ Proof. vm_compute. repeat split; auto 12. Qed.
 
 Example ex_diamond_all_kinds :
   map (fun k => thunk_arg ex_diamond 5 k 3%N [0%N] 1%N)
-      [KRef; KRRef; KPtr; KShared; KCShared; KVptr; KVSptr]
-  = repeat (Some [3; 1]%N) 7.
+      [KRef; KRRef; KPtr; KShared; KCShared; KVptr; KVSptr; KCVSptr]
+  = repeat (Some [3; 1]%N) 8.
 Proof. vm_compute. reflexivity. Qed.
 
 Example ex_diamond_to_bottom :
@@ -196,8 +197,8 @@ Proof. vm_compute. repeat split; auto 12. Qed.
 
 Example ex_second_all_kinds :
   map (fun k => thunk_arg ex_second 5 k 3%N [3; 2; 0]%N 2%N)
-      [KRef; KRRef; KPtr; KShared; KCShared; KVptr; KVSptr]
-  = repeat (Some [3; 2]%N) 7 /\
+      [KRef; KRRef; KPtr; KShared; KCShared; KVptr; KVSptr; KCVSptr]
+  = repeat (Some [3; 2]%N) 8 /\
   upcast ex_second 5 [3; 2]%N 0%N = Some [3; 2; 0]%N.
 Proof. vm_compute. auto. Qed.
 
@@ -218,6 +219,15 @@ Example C11_repeated_base_outside :
   thunk_arg ex_repeated 5 KRef 3%N [3; 1; 0]%N 1%N = Some [3; 1]%N /\
   thunk_arg ex_repeated 5 KRef 3%N [3; 1; 0]%N 3%N = Some [3%N].
 Proof. vm_compute. repeat split; auto 12. Qed.
+
+(** const virtual_shared_ptr<T>& to a second base at a non-zero offset: the
+    static flavour is chosen, and the result still owns the caller's object *)
+Example ex_second_cvsptr :
+  is_smart KCVSptr = true /\
+  cast_choice ex_second 5 KCVSptr 0%N 2%N = CStatic /\
+  thunk_ctrl KCVSptr 9%N (thunk_arg ex_second 5 KCVSptr 3%N [3; 2; 0]%N 2%N) = Some 9%N /\
+  uc_delta KCVSptr ELvalue = Some 1.
+Proof. vm_compute. auto. Qed.
 
 (** non-virtual categories *)
 Example ex_nonvirtual :
